@@ -325,6 +325,24 @@ class C14(Check):
                 fired_before = dict(server.fired)
                 if mode == "fresh":
                     s0, a2 = sut(get_accessor_for_url, scn["url"])
+                    first_info_clean = 0 not in plan
+                    if (s0 == "ok" and first_info_clean and info is not None
+                            and (type(a2).__name__ == "ShardedHttpAccessor")
+                            != sharded):
+                        # the first download of info went through untouched,
+                        # so the dispatch decision was made on the real info:
+                        # a later failure must surface, not change the kind
+                        # of accessor that is returned
+                        res.violate(
+                            "C14/dispatch",
+                            f"{scn['kind']}: info was fetched intact and "
+                            f"{'declares' if sharded else 'does not declare'}"
+                            f" sharding, yet with faults "
+                            f"{ {k: plan[k][0] for k in sorted(plan)} } "
+                            f"{scn['url']} was dispatched to "
+                            f"{type(a2).__name__}",
+                            key=f"C14/dispatch-under-faults/{scn['kind']}")
+                        break
                     if s0 == "exc":
                         s1, got = "exc", a2
                     else:
